@@ -47,13 +47,25 @@ def _correspondence_once(ctx, rep=0):
                     i = int(torch.randint(0, B, (1,), generator=gen))
                     rec = R.Recorder(cond); k1, y1, ld1 = R.impl_call(t, x[i:i + 1], c[i:i + 1] if c is not None else None, inverse); rec.close()
                     if k1 == 'ok' and rec.calls:
-                        side.append((e, B, inverse, i, whole[i:i + 1], rec.calls[0][1], j.y[i:i + 1], y1, j.ld[i:i + 1], ld1))
+                        side.append((e, B, inverse, i, whole[i:i + 1], rec.calls[0][1], j.y[i:i + 1], y1, j.ld[i:i + 1], ld1,
+                                     t, x[i:i + 1], c[i:i + 1] if c is not None else None))
     tcorr.run_jobs(jobs)
     for j in jobs:
         tcorr.compare(ctx, j, 'C12', observables=('out', 'ld'))
-    for (e, B, inverse, i, pw, p1, yw, y1, lw, l1) in side:
-        ok = torch.allclose(pw, p1, rtol=1e-9, atol=1e-11) and torch.allclose(yw, y1, rtol=1e-8, atol=1e-10) and torch.allclose(lw, l1, rtol=1e-8, atol=1e-9)
-        ctx.case(key=('rowvsbatch', e.name, B, inverse), branch='row-vs-batch', nontrivial=True, n=int(yw.numel()))
+    for (e, B, inverse, i, pw, p1, yw, y1, lw, l1, t, xi, ci) in side:
+        ok = torch.allclose(pw, p1, rtol=1e-9, atol=1e-11) and torch.allclose(yw, y1, rtol=1e-8, atol=1e-10, equal_nan=True) \
+            and torch.allclose(lw, l1, rtol=1e-8, atol=1e-9, equal_nan=True)
+        br = 'row-vs-batch'
+        if not ok and inverse and torch.allclose(pw, p1, rtol=1e-9, atol=1e-11):
+            # an ill-conditioned inverse (a nearly flat bin) amplifies the last-ulp differences between the vectorised and the
+            # scalar kernels torch uses for different batch sizes: accept when BOTH answers are preimages of the row in the
+            # backward-error sense — the forward map, evaluated on each answer alone, returns the row and the negated log-det
+            def preimage(yy, ll):
+                k, fy, fl = R.impl_call(t, yy, ci, False)
+                return k == 'ok' and torch.allclose(fy, xi, rtol=1e-8, atol=1e-9) and torch.allclose(fl, -ll, rtol=1e-7, atol=1e-7)
+            if bool(torch.isfinite(yw).all() and torch.isfinite(y1).all()) and preimage(yw, lw) and preimage(y1, l1):
+                ok = True; br = 'row-vs-batch/backward-error'
+        ctx.case(key=('rowvsbatch', e.name, B, inverse), branch=br, nontrivial=True, n=int(yw.numel()))
         if not ok:
             ctx.disagree('C12/row-vs-batch', {'entry': e.name, 'B': B, 'row': i, 'inverse': inverse},
                          {'out': yw.reshape(-1).tolist()[:6]}, {'out': y1.reshape(-1).tolist()[:6]}, 'row of the batch result differs from evaluating the row alone')
